@@ -43,22 +43,25 @@ class CaseTimeout(Exception):
 
 
 def _alarm(signum, frame):
-    raise CaseTimeout()
+    where = "".join(traceback.format_stack(frame, limit=6))
+    raise CaseTimeout(where)
 
 
 class watchdog:
-    """Per-case watchdog: turns a hang of the implementation into an exception."""
+    """Per-case watchdog: turns a hang of the implementation into an exception.
+    Counts CPU time of this process (ITIMER_PROF), not wall-clock time: with 16 busy workers the sandbox
+    deschedules / throttles processes for seconds, which made wall-clock alarms fire on healthy cases."""
 
     def __init__(self, seconds=5):
         self.seconds = seconds
 
     def __enter__(self):
-        self.old = signal.signal(signal.SIGALRM, _alarm)
-        signal.alarm(self.seconds)
+        self.old = signal.signal(signal.SIGPROF, _alarm)
+        signal.setitimer(signal.ITIMER_PROF, self.seconds)
 
     def __exit__(self, *a):
-        signal.alarm(0)
-        signal.signal(signal.SIGALRM, self.old)
+        signal.setitimer(signal.ITIMER_PROF, 0)
+        signal.signal(signal.SIGPROF, self.old)
         return False
 
 
